@@ -14,7 +14,7 @@ WORKERS = int(os.environ.get("VERIF_WORKERS", "16"))
 
 # (batches, runs per batch) at the default budget
 PLAN = {
-    "C12": {"quick": (112, 20), "thorough": (1200, 30)},
+    "C12": {"quick": (112, 20), "thorough": (700, 30)},
     "C06": {"quick": (448, 12), "thorough": (3600, 16)},
     "C08": {"quick": (320, 10), "thorough": (3200, 14)},
 }
